@@ -253,6 +253,12 @@ class FnVerifier(ExprMixin, StmtMixin, CallMixin):
         nret = 0
         for o in self.exits:
             st = o.st
+            if c.region is None:
+                # in the function's own postconditions a parameter name means the ARGUMENT (its value at entry), even if the body rebinds it
+                st = st.copy()
+                for pn, _ in c.params:
+                    if pn in self.entry.env:
+                        st.env[pn] = self.entry.env[pn]
             if o.kind == 'fall':
                 for i, e in enumerate(self.c.ghost.get('ensures_fall', c.ensures)):
                     self.oblige_spec('post.fall#%d.e%d' % (nret, i), e, st, node=None, kind='post', old=self.entry, out=st.out)
@@ -264,6 +270,15 @@ class FnVerifier(ExprMixin, StmtMixin, CallMixin):
                 nret += 1
                 res = self.coerce(o.val, c.returns, st) if o.val is not None else SV(NONE, NONEV)
                 for i, e in enumerate(c.ensures):
+                    if isinstance(e, tuple):
+                        # (spec, finding id, exclusion): a clause the code is known not to satisfy on the inputs described by `exclusion`.
+                        # The clause itself is still generated (reported as KNOWN-FINDING while it fails); with the exclusion assumed it must hold.
+                        spec_, fid, excl = e
+                        self.oblige_spec('post.return#%d.e%d.known-%s' % (k, i, fid), spec_, st, node=None, kind='post', old=self.entry, result=res, out=st.out)
+                        s2 = st.copy()
+                        self.assume_spec(excl, s2, old=self.entry, result=res, out=st.out)
+                        self.oblige_spec('post.return#%d.e%d.outside-%s' % (k, i, fid), spec_, s2, node=None, kind='post', old=self.entry, result=res, out=st.out)
+                        continue
                     self.oblige_spec('post.return#%d.e%d' % (k, i), e, st, node=None, kind='post', old=self.entry, result=res, out=st.out)
                 if c.canary:
                     self.oblige('canary.return#%d' % k, st, z3.BoolVal(False), kind='canary', expect_sat=True)
